@@ -32,11 +32,16 @@ func (e *AccessorExpr) Evaluate(engine *Engine, input interface{}, args []*State
 
 	// If it is a slice we need to Evaluate each one.
 	if in.Kind() == reflect.Slice {
-		t := TypeOfSliceElement(input)
-		if t.Kind() == reflect.Ptr {
-			t = t.Elem()
+		// The type of the elements is not known for a slice of anything
+		// ([]interface{}), like the result of an accessor on elements that do
+		// not all have the same type.
+		var returnType reflect.Type
+		if t := TypeOfSliceElement(input); t != nil {
+			if t.Kind() == reflect.Ptr {
+				t = t.Elem()
+			}
+			returnType = e.getReturnType(accessor, reflect.New(t).Interface())
 		}
-		returnType := e.getReturnType(accessor, reflect.New(t).Interface())
 
 		// Each of the elements is evaluated on its own.
 		results := []interface{}{}
